@@ -20,6 +20,14 @@ package main
 // a holder (source, copy, source, copy, ... in the order of the case text, which
 // is independent of Go's map iteration order); X puts one more value of the
 // client, outside the buffer, under observation.
+//
+// SOURCES WITH SPARE CAPACITY (XC: make([]byte, len, len+spare), T: h_k = h_k[:0]):
+// an observed []byte is observed over its whole capacity (rng), so a hand-out that
+// lies anywhere in a source's array - its spare capacity included - overlaps.
+// H/HI copy observed values THEMSELVES (pointer, length, capacity as they are now):
+// as the string / []byte fields of a generated type (g), as the values of a
+// map[string]any (m), as the elements of a []string / [][]byte copied to *[]string
+// (ls) / *[][]byte (lb), or as the one value of a StaticInspector.CopyTo (t).
 
 import (
 	"encoding/hex"
@@ -243,6 +251,81 @@ func runC07(input string) string {
 		inspector.AssignBuf(&dst, src, buf)
 		hs = append(hs, &handout{b: &dst, live: true})
 	}
+	// CopyTo of the generated type the shape maps to, whose string / []byte fields hold vals (string or []byte, as they
+	// are), into a fresh destination or (reuse) the destination of the previous CopyTo of that type; for any other shape
+	// the statement sequence every generated cpy() emits.
+	copyGenerated := func(shape string, vals []any, reuse bool) {
+		switch shape {
+		case "sb", "sbb":
+			// the generated inspector of testobj.TestObject: Id, Name, Finance.History[last].Comment
+			src := testobj.TestObject{Id: vals[0].(string), Name: vals[1].([]byte)}
+			if shape == "sbb" {
+				src.Finance = &testobj.TestFinance{History: []testobj.TestHistory{{Comment: vals[2].([]byte)}}}
+			}
+			dst := prevObj
+			if !reuse || dst == nil {
+				dst = &testobj.TestObject{}
+			}
+			release(dst)
+			if err := (testobj_ins.TestObjectInspector{}).CopyTo(&src, dst, buf); err != nil {
+				panic(err)
+			}
+			prevObj = dst
+			hs = append(hs, &handout{isStr: true, s: &dst.Id, live: true, owner: dst})
+			hs = append(hs, &handout{b: &dst.Name, live: true, owner: dst})
+			if shape == "sbb" {
+				// cpy appends to the History of a destination that has one: the copy is the last element
+				hist := dst.Finance.History
+				hs = append(hs, &handout{b: &hist[len(hist)-1].Comment, live: true, owner: dst})
+			}
+		case "b":
+			// testobj.TestHistory: Comment
+			src := testobj.TestHistory{Comment: vals[0].([]byte)}
+			dst := prevHist
+			if !reuse || dst == nil {
+				dst = &testobj.TestHistory{}
+			}
+			release(dst)
+			if err := (testobj_ins.TestHistoryInspector{}).CopyTo(&src, dst, buf); err != nil {
+				panic(err)
+			}
+			prevHist = dst
+			hs = append(hs, &handout{b: &dst.Comment, live: true, owner: dst})
+		case "bbsb":
+			// testobj.TestObject1: ByteSlice, *ByteSlicePtr, NestedStruct.S, NestedStruct.B
+			p := vals[1].([]byte)
+			src := testobj.TestObject1{ByteSlice: vals[0].([]byte), ByteSlicePtr: &p,
+				NestedStruct: testobj.TestStruct{S: vals[2].(string), B: vals[3].([]byte)}}
+			dst := prevObj1
+			if !reuse || dst == nil {
+				dst = &testobj.TestObject1{}
+			}
+			release(dst)
+			if err := (testobj_ins.TestObject1Inspector{}).CopyTo(&src, dst, buf); err != nil {
+				panic(err)
+			}
+			prevObj1 = dst
+			hs = append(hs, &handout{b: &dst.ByteSlice, live: true, owner: dst})
+			hs = append(hs, &handout{b: dst.ByteSlicePtr, live: true, owner: dst})
+			hs = append(hs, &handout{isStr: true, s: &dst.NestedStruct.S, live: true, owner: dst})
+			hs = append(hs, &handout{b: &dst.NestedStruct.B, live: true, owner: dst})
+		default:
+			// the statement sequence every generated cpy() emits
+			bb := buf.AcquireBytes()
+			for i := range vals {
+				if shape[i] == 's' {
+					var s string
+					bb, s = inspector.BufferizeString(bb, vals[i].(string))
+					addS(s)
+				} else {
+					var p []byte
+					bb, p = inspector.Bufferize(bb, vals[i].([]byte))
+					addB(p)
+				}
+			}
+			buf.ReleaseBytes(bb)
+		}
+	}
 	for _, o := range parts[1:] {
 		f := strings.Split(o, ":")
 		switch f[0] {
@@ -292,84 +375,181 @@ func runC07(input string) string {
 			assignInto(k, f[2] == "true")
 		case "C", "CI":
 			// C: CopyTo into a fresh destination; CI: into the destination of the previous CopyTo of that type
-			reuse := f[0] == "CI"
 			shape := ""
-			var data [][]byte
+			var vals []any
 			if len(f[1]) > 0 {
 				for _, fl := range strings.Split(f[1], ",") {
 					shape += fl[:1]
-					data = append(data, unhex(fl[1:]))
-				}
-			}
-			switch shape {
-			case "sb", "sbb":
-				// the generated inspector of testobj.TestObject: Id, Name, Finance.History[last].Comment
-				src := testobj.TestObject{Id: string(data[0]), Name: data[1]}
-				if shape == "sbb" {
-					src.Finance = &testobj.TestFinance{History: []testobj.TestHistory{{Comment: data[2]}}}
-				}
-				dst := prevObj
-				if !reuse || dst == nil {
-					dst = &testobj.TestObject{}
-				}
-				release(dst)
-				if err := (testobj_ins.TestObjectInspector{}).CopyTo(&src, dst, buf); err != nil {
-					panic(err)
-				}
-				prevObj = dst
-				hs = append(hs, &handout{isStr: true, s: &dst.Id, live: true, owner: dst})
-				hs = append(hs, &handout{b: &dst.Name, live: true, owner: dst})
-				if shape == "sbb" {
-					// cpy appends to the History of a destination that has one: the copy is the last element
-					hist := dst.Finance.History
-					hs = append(hs, &handout{b: &hist[len(hist)-1].Comment, live: true, owner: dst})
-				}
-			case "b":
-				// testobj.TestHistory: Comment
-				src := testobj.TestHistory{Comment: data[0]}
-				dst := prevHist
-				if !reuse || dst == nil {
-					dst = &testobj.TestHistory{}
-				}
-				release(dst)
-				if err := (testobj_ins.TestHistoryInspector{}).CopyTo(&src, dst, buf); err != nil {
-					panic(err)
-				}
-				prevHist = dst
-				hs = append(hs, &handout{b: &dst.Comment, live: true, owner: dst})
-			case "bbsb":
-				// testobj.TestObject1: ByteSlice, *ByteSlicePtr, NestedStruct.S, NestedStruct.B
-				p := data[1]
-				src := testobj.TestObject1{ByteSlice: data[0], ByteSlicePtr: &p,
-					NestedStruct: testobj.TestStruct{S: string(data[2]), B: data[3]}}
-				dst := prevObj1
-				if !reuse || dst == nil {
-					dst = &testobj.TestObject1{}
-				}
-				release(dst)
-				if err := (testobj_ins.TestObject1Inspector{}).CopyTo(&src, dst, buf); err != nil {
-					panic(err)
-				}
-				prevObj1 = dst
-				hs = append(hs, &handout{b: &dst.ByteSlice, live: true, owner: dst})
-				hs = append(hs, &handout{b: dst.ByteSlicePtr, live: true, owner: dst})
-				hs = append(hs, &handout{isStr: true, s: &dst.NestedStruct.S, live: true, owner: dst})
-				hs = append(hs, &handout{b: &dst.NestedStruct.B, live: true, owner: dst})
-			default:
-				// the statement sequence every generated cpy() emits
-				bb := buf.AcquireBytes()
-				for i := range data {
-					if shape[i] == 's' {
-						var s string
-						bb, s = inspector.BufferizeString(bb, string(data[i]))
-						addS(s)
+					if fl[0] == 's' {
+						vals = append(vals, string(unhex(fl[1:])))
 					} else {
-						var p []byte
-						bb, p = inspector.Bufferize(bb, data[i])
-						addB(p)
+						vals = append(vals, unhex(fl[1:]))
 					}
 				}
-				buf.ReleaseBytes(bb)
+			}
+			copyGenerated(shape, vals, f[0] == "CI")
+		case "XC":
+			// a []byte of the client outside the buffer WITH SPARE CAPACITY comes under observation:
+			// make([]byte, len, len+spare); the whole capacity is the client's
+			d := unhex(f[1])
+			spare, _ := strconv.Atoi(f[2])
+			v := make([]byte, len(d), len(d)+spare)
+			copy(v, d)
+			addB(v)
+		case "T":
+			// client: h_k = h_k[:0]
+			k, _ := strconv.Atoi(f[1])
+			if k < len(hs) && hs[k].live && !hs[k].isStr {
+				*hs[k].b = (*hs[k].b)[:0]
+			}
+		case "H", "HI":
+			// a copy whose source fields ARE the observed values f[2] (as they are now: pointer, length, capacity)
+			reuse := f[0] == "HI"
+			var src []*handout
+			ok := true
+			if f[2] != "" {
+				for _, t := range strings.Split(f[2], ",") {
+					k, _ := strconv.Atoi(t)
+					if k >= len(hs) || !hs[k].live {
+						ok = false
+						break
+					}
+					src = append(src, hs[k])
+				}
+			}
+			if !ok || len(src) == 0 {
+				break
+			}
+			allS, allB := true, true
+			for _, h := range src {
+				if h.isStr {
+					allB = false
+				} else {
+					allS = false
+				}
+			}
+			switch f[1] {
+			case "g":
+				shape := ""
+				var vals []any
+				for _, h := range src {
+					if h.isStr {
+						shape += "s"
+						vals = append(vals, *h.s)
+					} else {
+						shape += "b"
+						vals = append(vals, *h.b)
+					}
+				}
+				copyGenerated(shape, vals, reuse)
+			case "m":
+				// map[string]any{"k0": h, "k1": &h, ...}: values and pointers to values alternate
+				m := map[string]any{}
+				for i, h := range src {
+					key := "k" + strconv.Itoa(i)
+					switch {
+					case h.isStr && i%2 == 0:
+						m[key] = *h.s
+					case h.isStr:
+						v := *h.s
+						m[key] = &v
+					case i%2 == 0:
+						m[key] = *h.b
+					default:
+						v := *h.b
+						m[key] = &v
+					}
+				}
+				dst := prevMap
+				if !reuse || dst == nil {
+					d := map[string]any{}
+					dst = &d
+				}
+				if err := (inspector.StringAnyMapInspector{}).CopyTo(m, dst, buf); err != nil {
+					panic(err)
+				}
+				prevMap = dst
+				for i, h := range src {
+					key := "k" + strconv.Itoa(i)
+					if h.isStr {
+						addS((*dst)[key].(string))
+					} else {
+						addB((*dst)[key].([]byte))
+					}
+				}
+			case "ls", "lb":
+				if !allS && !allB {
+					break
+				}
+				var in any
+				if allS {
+					ss := make([]string, len(src))
+					for i, h := range src {
+						ss[i] = *h.s
+					}
+					in = ss
+				} else {
+					pp := make([][]byte, len(src))
+					for i, h := range src {
+						pp[i] = *h.b
+					}
+					in = &pp
+				}
+				if f[1] == "ls" {
+					dst := prevSS
+					if !reuse || dst == nil {
+						dst = &[]string{}
+					}
+					if err := (inspector.StringsInspector{}).CopyTo(in, dst, buf); err != nil {
+						panic(err)
+					}
+					prevSS = dst
+					for _, v := range (*dst)[len(*dst)-len(src):] {
+						addS(v)
+					}
+				} else {
+					dst := prevPP
+					if !reuse || dst == nil {
+						dst = &[][]byte{}
+					}
+					if err := (inspector.StringsInspector{}).CopyTo(in, dst, buf); err != nil {
+						panic(err)
+					}
+					prevPP = dst
+					for _, v := range (*dst)[len(*dst)-len(src):] {
+						addB(v)
+					}
+				}
+			case "t":
+				if len(src) != 1 {
+					break
+				}
+				// by value for an even index of the source, through a pointer otherwise
+				h := src[0]
+				k, _ := strconv.Atoi(f[2])
+				if h.isStr {
+					var dst string
+					var in any = *h.s
+					if k%2 == 1 {
+						in = h.s
+					}
+					if err := (inspector.StaticInspector{}).CopyTo(in, &dst, buf); err != nil {
+						panic(err)
+					}
+					addS(dst)
+				} else {
+					var dst []byte
+					var in any = *h.b
+					if k%2 == 1 {
+						in = h.b
+					}
+					if err := (inspector.StaticInspector{}).CopyTo(in, &dst, buf); err != nil {
+						panic(err)
+					}
+					addB(dst)
+				}
+			default:
+				panic("bad via " + o)
 			}
 		case "X":
 			// a value of the client outside the buffer comes under observation
